@@ -151,35 +151,6 @@ Definition flip_bit (l : list N) (pos bit : N) : list N :=
   ++ (match nth_error l (N.to_nat pos) with Some b => [N.lxor b (2 ^ bit)] | None => [] end)
   ++ skipn (S (N.to_nat pos)) l.
 
-(** kind 0 truncation at pos | 1 flip of bit [bit] of byte [pos] | 2 intact;
-    obs: 0 error (not loaded) | 1 served | 2 served, crash contained | 3 PROCESS CRASH | 4 HANG | 5 search returned an error *)
-Inductive c11case :=
-| C11V (base : nat) (kind pos bit obs : N)
-| C11W (idx : nat) (obs : N).
-
-Definition c11_bytes (bases : list (list N)) (c : c11case) : list N * N :=
-  match c with
-  | C11V base kind pos bit obs =>
-    let b := nth base bases [] in
-    ((if kind =? 0 then firstn (N.to_nat pos) b else if kind =? 1 then flip_bit b pos bit else b), obs)
-  | C11W idx obs => (nth idx witnesses [], obs)
-  end.
-
-(** model says "load error" => the implementation must not have loaded the shard; model says "loads" => the
-    implementation may still reject it (JSON metadata, statistics: not modelled) but must neither crash nor hang. *)
-Definition c11_check (bases : list (list N)) (c : c11case) : bool :=
-  let '(bytes, obs) := c11_bytes bases c in
-  match bytes with
-  | [] => obs =? 0
-  | _ =>
-    match load_shard_served (mmap_file bytes) false with
-    | Err _ => obs =? 0
-    | Panic _ => obs =? 4
-    | Ok _ => negb (obs =? 3) && negb (obs =? 4)
-    end
-  end.
-Definition c11_mismatches (bases : list (list N)) (cs : list c11case) : list N := bad_indexes (c11_check bases) cs.
-
 (* ------------------------------------------------------------------ (4) sharded search and a loaded-but-corrupt shard *)
 
 (** indexData.Search(Const true, Whole) restricted to what it reads of every document *)
@@ -215,3 +186,34 @@ Definition iso_healthy : list N := write_shard false iso_state iso_opaque.
 Definition iso_pos : N := nlen (fst (layout 0 (shard_sections false iso_state iso_opaque))) + 58.
 Definition witness_oob : list N := flip_bit iso_healthy iso_pos 7.
 Definition witnesses2 : list (list N) := witnesses ++ [witness_oob; iso_healthy].
+
+(* ------------------------------------------------------------------ outcome-class runner *)
+(** kind 0 truncation at pos | 1 flip of bit [bit] of byte [pos] | 2 intact;
+    obs: 0 error (not loaded) | 1 served | 2 served, crash contained | 3 PROCESS CRASH | 4 HANG | 5 search returned an error *)
+Inductive c11case :=
+| C11V (base : nat) (kind pos bit obs : N)
+| C11W (idx : nat) (obs : N).
+
+Definition c11_bytes (bases : list (list N)) (c : c11case) : list N * N :=
+  match c with
+  | C11V base kind pos bit obs =>
+    let b := nth base bases [] in
+    ((if kind =? 0 then firstn (N.to_nat pos) b else if kind =? 1 then flip_bit b pos bit else b), obs)
+  | C11W idx obs => (nth idx witnesses2 [], obs)
+  end.
+
+(** model says "load error" => the implementation must not have loaded the shard; model says "loads" => the
+    implementation may still reject it (JSON metadata, statistics: not modelled) but must neither crash nor hang. *)
+Definition c11_check (bases : list (list N)) (c : c11case) : bool :=
+  let '(bytes, obs) := c11_bytes bases c in
+  match bytes with
+  | [] => obs =? 0
+  | _ =>
+    match load_shard_served (mmap_file bytes) false with
+    | Err _ => obs =? 0
+    | Panic _ => obs =? 4
+    | Ok _ => negb (obs =? 3) && negb (obs =? 4)
+    end
+  end.
+Definition c11_mismatches (bases : list (list N)) (cs : list c11case) : list N := bad_indexes (c11_check bases) cs.
+
